@@ -45,12 +45,20 @@ Definition show_denote (o : option (list rr)) : string :=
   | Some l => show_evs (map ERec l)
   end.
 
+(* the iterator values of a $GENERATE range as the specification lists them
+   (gen_values over gen_count): how many, the first, the last *)
+Definition show_values (start stop step : Z) : string :=
+  let vs := gen_values (gen_count start stop step) start stop step in
+  (dec (lenN vs) +++ "," +++ decZ (hd 0%Z vs) +++ "," +++ decZ (last vs 0%Z))%string.
+
 Definition run0 (fn : string) (args : list string) : string :=
   if String.eqb fn "denote" then
     show_denote (denote (unhex (arg args 0)) (opt_dec (arg args 1)) (parse_zone_spec (arg args 2)))
   else if String.eqb fn "skel" then
     showb (forall2b realizes_b (lex (expand (arg args 1))) (sk_zone (parse_zone_spec (arg args 0))))
   else if String.eqb fn "ttlspec" then show_optn (ttl_of_text (unhex (arg args 0)))
+  else if String.eqb fn "genvalues" then
+    show_values (undecZ (arg args 0)) (undecZ (arg args 1)) (undecZ (arg args 2))
   else if String.eqb fn "complete" then hex (complete (unhex (arg args 0)) (unhex (arg args 1)))
   else Corr.C07.run0 fn args.
 Definition run (fn : string) (args : list string) : string := digest (run0 fn args).
